@@ -984,6 +984,9 @@ class Executor(object):
                     new.append((o, None))
                     continue
                 for o1, c in self.truthy(v, o):
+                    if not o1.running:
+                        new.append((o1, None))
+                        continue
                     go_on = c if is_and else Not(c)
                     stop = o1.assume(Not(go_on))
                     if stop is not None:
